@@ -234,7 +234,6 @@ pCls == <<"[ab]">>
 pDotStar == <<".", "*">>
 SegFull == {pStar, pQ, pStarT, pAQT, pCls, pDotStar, nAT, nPlus, nDollar, nParen, nA, nD, nS, nT, nHid, DS}
 SegCore == {pStar, pStarT, pAQT, nD, DS}
-SegMid  == {pStar, pQ, pStarT, pAQT, nAT, nDollar, nA, nD, nS, nHid, DS}
 SegExc  == {pStar, pStarT, pAQT, nAT, nDollar, nA, nD, nS, nT, nHid, DS}
 SegExcQuick == {pStar, pStarT, pAQT, nAT, nDollar, nD, nS, nHid, DS}
 PatSeqs(A, lens) == {P \in UNION {[1..n -> A] : n \in lens} : \A i \in 1..(Len(P) - 1) : ~(IsDS(P[i]) /\ IsDS(P[i + 1]))}
@@ -276,7 +275,7 @@ PatSet(m, kind) ==
   CASE m = "quick" /\ kind = "inc"      -> IncPats(PatSeqs(SegFull, {1, 2}) \cup PatSeqs(SegCore, {3}))
     [] m = "quick" /\ kind = "exc"      -> ExcPats(SegExcQuick, {1, 2})
     [] m = "quick" /\ kind = "small"    -> SmallPatsQuick
-    [] m = "thorough" /\ kind = "inc"   -> IncPats(PatSeqs(SegFull, {1, 2}) \cup PatSeqs(SegMid, {3}))
+    [] m = "thorough" /\ kind = "inc"   -> IncPats(PatSeqs(SegFull, {1, 2, 3}))
     [] m = "thorough" /\ kind = "exc"   -> ExcPats(SegExc, {1, 2}) \cup ExcPats(SegExcQuick, {3})
     [] m = "thorough" /\ kind = "small" -> SmallPatsThorough
     [] m = "sanity"                     -> IncPats({<<DS, pStarT>>, <<pStar>>, <<DS, pAQT>>, <<DS, nDollar>>, <<DS, nParen>>})
